@@ -287,17 +287,32 @@ def make_passes2(pairs):
 THEORY_DECLS = {
     'arithmetic': ['(declare-const i Int)',
                    '(declare-fun fr (Bool) Real)',
-                   '(define-fun di ((p Bool)) Int 1)'],
+                   '(define-fun di ((p Bool)) Int 1)',
+                   '(declare-const ai (Array Bool Int))',
+                   '(declare-fun gi (Bool) (Array Real Bool))',
+                   '(declare-fun pi (Int) Bool)'],
     'bv': ['(declare-const b (_ BitVec 8))',
-           '(declare-fun fb (Bool) (_ BitVec 4))'],
+           '(declare-fun fb (Bool) (_ BitVec 4))',
+           '(define-fun db ((p Bool)) (_ BitVec 2) #b01)',
+           '(declare-const ab (Array (_ BitVec 4) (_ BitVec 8)))',
+           '(declare-fun gb (Bool) (Array Bool (_ BitVec 8)))',
+           '(define-fun pb ((v (_ BitVec 8))) Bool true)'],
     'datatypes': ['(declare-datatype A ((C)))',
                   '(declare-datatypes ((B 0)) (((D))))'],
     'fp': ['(declare-const f Float32)',
            '(declare-const rm RoundingMode)',
-           '(declare-fun ff (Bool) (_ FloatingPoint 5 11))'],
+           '(declare-fun ff (Bool) (_ FloatingPoint 5 11))',
+           '(declare-const af (Array Bool Float64))',
+           '(declare-fun gf (Bool) (Array (_ FloatingPoint 8 24) Bool))',
+           '(declare-fun pf (Float16 Bool) Bool)'],
     'strings': ['(declare-const s String)',
-                '(declare-fun fq (Bool) (Seq Bool))'],
+                '(declare-fun fq (Bool) (Seq Bool))',
+                '(define-fun ds ((p Bool)) String "a")',
+                '(declare-const as (Array Bool String))',
+                '(declare-fun gs (Bool) (Array Bool (Seq Bool)))',
+                '(declare-fun ps (String) Bool)'],
 }
+NFORMS = 6
 NEUTRAL = ['(set-logic ALL)', '(declare-const p Bool)', '(assert p)',
            '(declare-sort U 0)', '(check-sat)']
 
@@ -447,6 +462,151 @@ def _e2e_seqs(tier, chunk, nchunks):
     return allseq[chunk::nchunks]
 
 
+# ------------------------------------------------- detection happens once
+
+DETECT_SCRIPTS = {
+    'bv': '(declare-const b (_ BitVec 4))(declare-const p Bool)'
+          '(assert (= (bvnot (bvnot b)) b))(assert (not (not p)))(check-sat)',
+    'int': '(declare-const i Int)(declare-const p Bool)'
+           '(assert (not (< i 3)))(assert (or p (not p)))(check-sat)',
+}
+
+
+def flags_once(vec, script, strategy):
+    """Complete run of cli.ddsmt_main with default options: the enabled set
+    in force when each strategy starts equals the set right after the
+    automatic theory detection on the *input* (a group may only be disabled
+    because the input declares nothing of it - not because minimisation
+    removed the declarations later)."""
+    import argparse
+    import logging
+    import os
+    import shutil
+    import tempfile
+    from ddsmt import (cli, checker, options, strategy_ddmin,
+                       strategy_hierarchical, progress, tmpfiles, mutators,
+                       nodeio)
+    from vlib.stubs.strat import Decider, RequiredTokensOracle, FakeMP
+    from harness import c01
+    c = ctx()
+    keys = ['b', 'i', 'p', 'not', 'check-sat', 'assert']
+    d = Decider(len(keys), replay=list(vec))
+    work = tempfile.mkdtemp(prefix='verif-c14-')
+    saved = {}
+
+    def patch(mod, name, val):
+        saved[(mod, name)] = getattr(mod, name)
+        setattr(mod, name, val)
+
+    snaps = []
+
+    def snap(tag):
+        ns = options.args()
+        snaps.append((tag, {a: getattr(ns, a) for a in c['mattrs']}))
+
+    try:
+        infile = os.path.join(work, 'input.smt2')
+        cmd = os.path.join(work, 'solver')
+        with open(infile, 'w') as f:
+            f.write(DETECT_SCRIPTS[script])
+        with open(cmd, 'w') as f:
+            f.write('#!/bin/sh\n')
+        os.chmod(cmd, 0o755)
+        ns = argparse.Namespace(**dict(vars(c['pristine'])))
+        ns.infile, ns.outfile = infile, os.path.join(work, 'out.smt2')
+        ns.cmd, ns.cmd_cc = [cmd], None
+        ns.strategy, ns.jobs = strategy, 1
+        ns.quietness = 3
+        setattr(options, '__PARSED_ARGS', ns)
+        if not hasattr(logging, 'chat'):
+            cli.setup_logging()
+        orig = c01.toks_of_text(DETECT_SCRIPTS[script])
+        oracle = RequiredTokensOracle(d, keys, orig)
+
+        def execute(xcmd, filename, timeout):
+            t = c01.toks_of_text(open(filename).read())
+            v = oracle.verdict(t)
+            return checker.RunInfo(1 if v else 0, '', '', 0.01)
+
+        real_detect = mutators.auto_detect_theories
+
+        def detect(exprs):
+            r = real_detect(exprs)
+            snap('detect')
+            return r
+
+        real_dd, real_h = strategy_ddmin.reduce, strategy_hierarchical.reduce
+
+        def dd(exprs):
+            snap('ddmin')
+            return real_dd(exprs)
+
+        def hi(exprs):
+            snap('hierarchical')
+            return real_h(exprs)
+
+        writes = [0]
+        real_write = nodeio.write_smtlib_to_file
+
+        def write(fn, exprs):
+            writes[0] += 1
+            if writes[0] > 80:
+                raise SC_Runaway()
+            return real_write(fn, exprs)
+
+        mp = FakeMP(d, 4)
+        patch(checker, 'execute', execute)
+        patch(mutators, 'auto_detect_theories', detect)
+        patch(strategy_ddmin, 'reduce', dd)
+        patch(strategy_hierarchical, 'reduce', hi)
+        patch(strategy_ddmin, 'multiprocessing', mp)
+        patch(strategy_hierarchical, 'multiprocessing', mp)
+        patch(nodeio, 'write_smtlib_to_file', write)
+        patch(cli, 'setup_logging', lambda: None)
+        for nm in ('start', 'update', 'finish'):
+            patch(progress, nm, lambda *a: None)
+        logging.getLogger().setLevel(logging.CRITICAL)
+        try:
+            cli.ddsmt_main()
+        except SC_Runaway:
+            return 'skip', d.read
+        except SystemExit as e:
+            return f'ddsmt_main exited with {e.code!r}', d.read
+        if not snaps or snaps[0][0] != 'detect':
+            return 'no theory detection before the strategies', d.read
+        first = snaps[0][1]
+        for tag, fl in snaps[1:]:
+            diff = sorted(a for a in first if fl[a] != first[a])
+            if diff:
+                return (f'{tag} starts with other enabled mutators than the '
+                        f'detection on the input left: {diff[:4]} '
+                        f'(required tokens {oracle.required})'), d.read
+        return None, d.read
+    finally:
+        for (mod, name), val in saved.items():
+            setattr(mod, name, val)
+        setattr(strategy_ddmin, '__abort_flag', None)
+        try:
+            t = getattr(tmpfiles, '__TMPDIR')
+            if t is not None:
+                t.cleanup()
+        except Exception:
+            pass
+        shutil.rmtree(work, ignore_errors=True)
+
+
+class SC_Runaway(BaseException):
+    pass
+
+
+def make_flags_run(script, strategy):
+    def run():
+        from vlib.engine import explore_choices
+        return explore_choices(lambda v: flags_once(v, script, strategy), 6,
+                               budget_s=160)
+    return run
+
+
 def bounds(tier):
     return {'option_strings': 'all', 'state': 'all mutator/group attributes '
             'symbolic'}
@@ -479,7 +639,7 @@ def partitions(tier):
             parts.append({'name': f'passes2_{k}',
                           'fn': make_passes2(pairs[k:k + 60]),
                           'budget_s': bud})
-    for v in range(3):
+    for v in range(NFORMS):
         for plo in range(0, 32, 4):
             parts.append({'name': f'detect_{v}_{plo}',
                           'setup': _wrap_is_relevant,
@@ -487,6 +647,11 @@ def partitions(tier):
                           'bounds': {'declaration_form': v,
                                      'declared_patterns': [plo, plo + 4],
                                      'set_by_user_patterns': 32}})
+    for sc in DETECT_SCRIPTS:
+        for st in ('hybrid', 'ddmin', 'hierarchical'):
+            parts.append({'name': f'flags_{sc}_{st}', 'kind': 'choices',
+                          'run': make_flags_run(sc, st), 'budget_s': 170,
+                          'bounds': {'script': sc, 'strategy': st}})
     nch = 8 if tier == 'quick' else 32
     for k in range(nch):
         parts.append({'name': f'e2e_{k}', 'kind': 'native',
@@ -527,6 +692,10 @@ def replay(part, cex):
             mv, gn, gv = vals(gnone)
             gv = [bool((cex['pi'] + cex['si'] + k) & 1) for k in range(ng)]
             return detect_check(present, v, mv, gn, gv, traced=False)
+        if part.startswith('flags'):
+            _, sc, st = part.split('_')
+            r, _ = flags_once(cex['bits'], sc, st)
+            return None if r in (None, 'skip') else r
         if part.startswith('e2e'):
             r = e2e_run([tuple(cex['seq'])])
             return str(r['cex']) if r['cex'] else None
